@@ -29,6 +29,35 @@ CLAIMS = {
              'construction, GNU/SysV hash position formulas and walk conditions, H-CUR on accessors and walks. Not decided: '
              'hash values (loops over bytes), lookup completeness as a relation over all tables. Trusted: glibc elf.h, '
              'gABI/GNU-hash rows, receiver hints of the call resolution.'),
+    'C08': dict(
+        technique='layout interpretation vs glibc + r_info split evaluated against registry macros + recipe-table evaluation with '
+                  'calc-function normal forms vs psABI rows + path-dominance of the apply-loop guards',
+        level=LEVEL,
+        note='Decides: Rel/Rela/Relr layouts incl. MIPS64, r_info splitting, table addressing, RELR expansion arithmetic, dynamic '
+             'table wiring, every recipe row of the listed machines (code, width, effective formula), apply loop guards/flavours/'
+             'width map/modulo/single writer/relocate flag. Not decided: relocated bytes of concrete objects; construct build == '
+             'parse inverse. Trusted: glibc elf.h, psABI rows in spec/reloc.py.'),
+    'C09': dict(
+        technique='layout interpretation + tag-table selection per configuration + structural checks of the tag iteration + '
+                  'override (sibling) check of the two views + accessor normal forms',
+        level=LEVEL,
+        note='Decides: Elf_Dyn layout, tag table per machine/OS ABI, iteration order (terminator yielded, n+1), string tags, '
+             'string-table selection, constructor wiring of both views, shared accessors (no overrides), symbol access by file '
+             'offset, count-recovery order. Not decided: equality of the two views on concrete images. Trusted: glibc elf.h.'),
+    'C14': dict(
+        technique='layout interpretation vs glibc/hand rows + loop-advance symbolic summation (exact-fit and progress rules) + '
+                  'dispatch extraction + analyser-evaluated padding agreement',
+        level=LEVEL,
+        note='Decides: note/descriptor layouts per class/byte order/machine/e_type, note walk advance on every path, exact-fit '
+             'guard, constant progress, descriptor dispatch, property padding == walker advance, front ends, stab walk. Not '
+             'decided: decoded descriptor values. Trusted: glibc elf.h, linux elfcore/readelf rows in spec/elf.py.'),
+    'C15': dict(
+        technique='layout interpretation vs glibc typedefs + chain-walk assignment normal forms + derived field names evaluated '
+                  'by the analyser against the layouts',
+        level=LEVEL,
+        note='Decides: five version struct layouts, walks advance from the current record by its next displacement, auxiliary '
+             'start, derived field names exist, names via the linked string table, get_version conditions, versym addressing, link '
+             'validation. Not decided: resolved values on concrete sections. Trusted: glibc elf.h.'),
     'C17': dict(
         technique='constant folding of table modules + exhaustive comparison with vendored registries',
         level=LEVEL,
